@@ -35,7 +35,8 @@ def main() -> int:
         shadowing = class_shadows_template_import(r.get("manifest") or {})
         if shadowing:
             run.ev.count("documents_with_a_class_named_like_a_template_import")
-        for a, res in actions_results(r):
+        from ..harness import with_followups
+        for a, res in with_followups(actions_results(r)):
             if a["a"] == "endpoint_info" and not a["x"].get("unmatched") and inf.get("deterministic_valid"):
                 # census on the hand-built (known valid) documents: every documented status has its own branch
                 run.ev.count("status_censuses")
